@@ -413,6 +413,31 @@ int main(int argc, char** argv) {
   { Encoder e; std::vector<Packet> batch{mk(small1), mk(big), mk(small2)};
     auto f = e.encode(batch.begin(), batch.end(), ctx); walk(f, {small1, big, small2}, mn, mx, 0, 0, 1, "[batch: other type, packet, same type]"); roundtrip(f, {small1, big, small2}, "[batch]"); }
   { Encoder e; std::vector<Packet> none; auto f = e.encode(none.begin(), none.end(), ctx); CHECK(f.empty(), "empty batch produced %zu frames", f.size()); }
+  // histories: the configuration, the protocol version and the ids change between calls on ONE encoder; every call is compared with a fresh encoder (C10)
+  { Encoder e; e.setDeviceId(0x0102); e.setStreamId(7);
+    size_t mx0 = std::min<size_t>(65559, mx * 4 + 100); DataContext wide{0, mx0};
+    auto p0 = mk(big); p0.setVersion(1); auto f0 = e.encode(p0, wide); walk(f0, {big}, 0, mx0, 0x0102, 7, 1, "[history: first call, wider frames]");
+    uint16_t c = e.getSequenceCounter();
+    auto p1 = mk(big); p1.setVersion(2);
+    auto f1 = e.encode(p1, ctx); walk(f1, {big}, mn, mx, 0x0102, 7, (uint16_t)(c + 1), "[history: second call, narrower frames]"); roundtrip(f1, {big}, "[history: second call]");
+    Encoder fresh; fresh.setDeviceId(0x0102); fresh.setStreamId(7); auto g1 = fresh.encode(p1, ctx);
+    CHECK(f1.size() == g1.size(), "[history] used encoder: %zu frames, fresh encoder: %zu frames for the same batch", f1.size(), g1.size());
+    for (size_t i = 0; i < f1.size() && i < g1.size(); ++i) {
+      bool same = f1[i].size() == g1[i].size(); for (size_t k = 0; same && k < f1[i].size(); ++k) if (k != 6 && k != 7 && f1[i][k] != g1[i][k]) same = false;
+      CHECK(same, "[history] frame %zu of the used encoder differs from the fresh encoder's (other than the counter)", i);
+      CHECK(f1[i].size() < 1 || f1[i][0] == 2, "[history] frame %zu carries version %u, the batch has version 2", i, f1[i].empty() ? 0 : f1[i][0]); }
+    e.setDeviceId(0x0102);      // setting the same id again restarts the counter as well
+    auto f2 = e.encode(p1, ctx); walk(f2, {big}, mn, mx, 0x0102, 7, 1, "[history: after setDeviceId(same id)]"); }
+  // a frame that is closed early (next packet does not fit / other message type) must still be padded to the minimum
+  if (mx >= 80) { Encoder e; size_t mnr = mx / 2; DataContext c2{mnr, mx};
+    Sent mid{(uint8_t)mt, 0xFB, std::vector<uint8_t>(mx - 24 - 6, 0x5A), 3, 4, 5, 0}; Sent other{(uint8_t)(mt == 1 ? 3 : 1), 0xFA, {7, 7, 7, 7}, 1, 1, 1, 0};
+    std::vector<Packet> batch{mk(small2), mk(mid), mk(small2), mk(other), mk(small2)};
+    auto f = e.encode(batch.begin(), batch.end(), c2); walk(f, {small2, mid, small2, other, small2}, mnr, mx, 0, 0, 1, "[roll-over: frames closed early, minimum = max/2]"); roundtrip(f, {small2, mid, small2, other, small2}, "[roll-over]"); }
+  // counter wrap: more than 65536 frames on one encoder
+  if (len == 1 && mx == 25) { Encoder e; Sent huge{(uint8_t)mt, 0xF9, std::vector<uint8_t>(40000, 1), 0, 0, 0, 0}; auto p = mk(huge); DataContext c3{0, 25};
+    auto fa = e.encode(p, c3); walk(fa, {huge}, 0, 25, 0, 0, 1, "[wrap: first 40000 frames]"); uint16_t c = e.getSequenceCounter();
+    auto fb = e.encode(p, c3); walk(fb, {huge}, 0, 25, 0, 0, (uint16_t)(c + 1), "[wrap: frames 40001..80000, counter passes 65535 -> 0]");
+    CHECK(e.getSequenceCounter() == (uint16_t)(80000 & 0xFFFF), "[wrap] reported counter %u after 80000 frames", e.getSequenceCounter()); }
   printf("violations=%d\n", fails);
   return fails ? 3 : 0;
 }
@@ -420,8 +445,9 @@ int main(int argc, char** argv) {
 
 def encoder_replay(doc, inp, r, work, root, repo):
     """encoder obligations: the counterexample's parameters (payload length, max, min, message type) are replayed through the public API
-    in four scenarios (fresh encoder; second call on the same encoder; batch with type change; empty batch); an independent frame walker
-    and a decode round trip are the oracle"""
+    in scenarios (fresh encoder; second call on the same encoder; batch with type change; empty batch; a history of calls with changing frame
+    size / protocol version / re-set ids compared with a fresh encoder; frames closed early under a minimum size; 80 000 frames across the
+    counter wrap); an independent frame walker and a decode round trip are the oracle"""
     ln = fieldval(inp, '.payloadData.n', 0) & 0xFFFF
     mx = fieldval(inp, '.maxBytesPerMessage', 0); mn = fieldval(inp, '.minBytesPerMessage', 0)
     mt = (fieldval(inp, '.type.type', 0x0100) >> 8) & 0xFF
